@@ -1183,6 +1183,15 @@ def p_matrix(ctx):
         for n, el in enumerate(("u8", "scalar", "enum", "static", "dynamic")):
             for k, sh in enumerate(shapes[:3]):
                 one(el, sh, pad=True, es=False, width={"scalar": scalar_w[k], "enum": enum_w[k + 1]}.get(el))
+        # a dynamic struct holding a padded static-count array, as element of a size-delimited array:
+        # its octet size (padding included) feeds the enclosing size field
+        sid = ctx.uid("S")
+        ex = ctx.fid()
+        ctx.decls.append(A.struct(sid, [A.scalar(ctx.fid(), 8), A.array(ctx.fid(), width=16, size=2), A.padding(rng.choice([6, 8])),
+                                        A.count_f(ex, 8), A.array(ex, width=8)]))
+        ctx.structs[sid] = "dynamic"
+        arr = ctx.fid()
+        ctx.decls.append(A.packet(ctx.uid("P"), [A.size_f(arr, 8), A.array(arr, type_id=sid), A.scalar(ctx.fid(), 8)]))
     elif part == 3:
         for el in ("dynamic", "greedy"):
             for sh in shapes:
